@@ -7,12 +7,16 @@ from the job's edges only, not from anything the model computes. Helper lemmas l
 `namespace Aux` (here and in Lemmas/C16*.lean).
 
 Hypotheses used:
-  * `job.WF`   : task ids distinct, edge endpoints are tasks, at most one source per
-                 (sink task, sink input) — what a `JobInstance` accepted by the builders satisfies;
+  * `job.WF`   : task ids distinct, edge endpoints are tasks — part of what a `JobInstance`
+                 accepted by the builders satisfies (Props/C19.lean `c19_accepted_presched_wf`).
+                 "At most one source per (sink task, sink input)" is NOT assumed any more: since the
+                 `fix:` commit of C16 `precompute` records every edge (`Job.UniqueInputs` is only the
+                 hypothesis of `c16_executor_view_partial`);
   * `IsDag job`: a topological numbering exists (needed for: every task is reached from a source,
                  the layering loop terminates). `IsDag` is decidable (`Aux.isDagB`, `c16_isDag_iff`).
 -/
 import EkwVerif.Lemmas.C16Dp
+import EkwVerif.Lemmas.C16LayersE
 
 set_option linter.unusedSectionVars false
 set_option linter.unusedVariables false
@@ -32,8 +36,12 @@ structure Job.WF (job : Job α β) : Prop where
   ids_nodup : job.ids.Nodup
   src_mem : ∀ e ∈ job.edges, e.src ∈ job.ids
   dst_mem : ∀ e ∈ job.edges, e.dst ∈ job.ids
-  unique_inputs : ∀ e₁ ∈ job.edges, ∀ e₂ ∈ job.edges, e₁.dst = e₂.dst → e₁.key = e₂.key →
-    e₁.src = e₂.src ∧ e₁.out = e₂.out
+
+/-- no two edges feed the same input of the same task from different sources. NOT part of `WF`
+since the `fix:` commit of C16 (precompute records every edge): no theorem about the preschedule
+needs it. It is what makes the executor's view (`param_source`) agree with the scheduler's
+(`c16_executor_view_partial`), and what `JobBuilder.build` guarantees (Props/C19.lean). -/
+def Job.UniqueInputs (job : Job α β) : Prop := Aux.UniqueInputs job.edges
 
 /-- acyclic: the tasks can be numbered so that every edge goes upwards -/
 def IsDag (job : Job α β) : Prop := ∃ rk : α → Nat, ∀ e ∈ job.edges, rk e.src < rk e.dst
@@ -140,7 +148,7 @@ def nbOf (job : Job α β) (v : α) : List α := edgeIP job v ++ edgeOP job v
 theorem mem_edgeOP' {job : Job α β} {a c : α} : c ∈ edgeOP job a ↔ job.child a c := mem_edgeOP
 
 theorem mem_edgeIP' {job : Job α β} (hw : job.WF) {a c : α} : a ∈ edgeIP job c ↔ job.child a c :=
-  mem_edgeIP hw.unique_inputs
+  mem_edgeIP
 
 theorem mem_nbOf {job : Job α β} (hw : job.WF) {a b : α} :
     b ∈ nbOf job a ↔ (job.child b a ∨ job.child a b) := by
@@ -373,7 +381,7 @@ theorem c16_edge_maps (job : Job α β) (hw : job.WF) :
   · intro ds t
     exact mem_dget_dependants
   · intro t ds
-    exact mem_dget_edgeI hw.unique_inputs
+    exact mem_dget_edgeI
   · intro t outs h
     refine ⟨_, dlookup_taskO hw.ids_nodup h, ?_⟩
     intro ds
@@ -944,7 +952,7 @@ def j0 : Job Nat Nat :=
     edges := [⟨0, 0, 1, .ps 0⟩, ⟨0, 1, 1, .kw "x"⟩, ⟨0, 0, 2, .ps 0⟩, ⟨1, 0, 3, .ps 0⟩, ⟨2, 0, 3, .ps 1⟩,
               ⟨4, 0, 5, .ps 0⟩] }
 
-theorem j0_wf : j0.WF := ⟨by decide, by decide, by decide, by decide⟩
+theorem j0_wf : j0.WF := ⟨by decide, by decide, by decide⟩
 theorem j0_dag : IsDag j0 := ⟨id, by decide⟩
 
 -- the hypotheses hold, `isDagB` agrees, and the model computes the three components, heaviest first
@@ -983,18 +991,261 @@ example : decomposeF 14 j0.ids (edgeIP j0) (edgeOP j0) = decompose j0.ids (edgeI
   (c16_fuel j0 j0_wf j0_dag 7).1
 
 
+/-! ## what the real code does where it produces no result (the `…E` functions the driver runs) -/
+
+namespace Aux
+
+theorem relaxE_some {st st' : List (α × Nat) × List α} {a : α} (h : relaxE st a = some st') :
+    relax st a = st' := by
+  unfold relaxE at h
+  unfold relax
+  cases hl : dlookup st.1 a with
+  | none => simp [hl] at h
+  | some k =>
+    simp only [hl] at h ⊢
+    by_cases hk : k - 1 = 0
+    · simp only [hk, ↓reduceIte, Option.some.injEq] at h ⊢; exact h
+    · simp only [hk, ↓reduceIte, Option.some.injEq] at h ⊢; exact h
+
+theorem foldO_relaxE_some : ∀ (as : List α) {st st' : List (α × Nat) × List α},
+    foldO relaxE as st = some st' → as.foldl relax st = st' := by
+  intro as
+  induction as with
+  | nil => intro st st' h; simpa [foldO] using h
+  | cons a as ih =>
+    intro st st' h
+    simp only [foldO] at h
+    cases hr : relaxE st a with
+    | none => simp [hr] at h
+    | some s1 =>
+      simp only [hr] at h
+      simp only [List.foldl_cons, relaxE_some hr]
+      exact ih h
+
+theorem layerStepE_some {pa : α → List α} {rem : List (α × Nat)} {layer : List α}
+    {st' : List (α × Nat) × List α} (h : layerStepE pa rem layer = some st') :
+    layerStep pa rem layer = st' := by
+  unfold layerStepE at h
+  unfold layerStep
+  generalize (rem, ([] : List α)) = st at h ⊢
+  induction layer generalizing st with
+  | nil => simpa [foldO] using h
+  | cons v layer ih =>
+    simp only [foldO] at h
+    cases hr : foldO relaxE (pa v) st with
+    | none => simp [hr] at h
+    | some s1 =>
+      simp only [hr] at h
+      simp only [List.foldl_cons, foldO_relaxE_some _ hr]
+      exact ih _ h
+
+theorem layerStep_nil (pa : α → List α) (rem : List (α × Nat)) : layerStep pa rem [] = (rem, []) := rfl
+
+end Aux
+
+/-- A run of the layering loop that ends without `KeyError` and without getting stuck is the run of
+the total model function: the theorems about `enrich` speak about what the real loop returns. -/
+theorem c16_layersLoopE_ok (pa : α → List α) : ∀ (fuel : Nat) (rem : List (α × Nat)) (acc : List (List α))
+    (last : List α) (r : List (α × Nat) × List (List α)),
+    layersLoopE pa fuel rem acc last = .ok r → layersLoop pa fuel rem acc last = r ∧ r.1 = [] := by
+  intro fuel
+  induction fuel with
+  | zero =>
+    intro rem acc last r h
+    simp only [layersLoopE] at h
+    by_cases he : rem.isEmpty
+    · simp only [he, ↓reduceIte, Except.ok.injEq] at h
+      subst h
+      exact ⟨rfl, List.isEmpty_iff.mp he⟩
+    · simp [he] at h
+  | succ f ih =>
+    intro rem acc last r h
+    simp only [layersLoopE] at h
+    simp only [layersLoop]
+    by_cases he : rem.isEmpty
+    · simp only [he, ↓reduceIte, Except.ok.injEq] at h ⊢
+      subst h
+      exact ⟨rfl, List.isEmpty_iff.mp he⟩
+    · simp only [he, Bool.false_eq_true, ↓reduceIte] at h ⊢
+      by_cases hl : last.isEmpty
+      · simp [hl] at h
+      · simp only [hl, Bool.false_eq_true, ↓reduceIte] at h
+        cases hs : layerStepE pa rem last with
+        | none => simp [hs] at h
+        | some st =>
+          simp only [hs] at h
+          rw [layerStepE_some hs]
+          exact ih _ _ _ _ h
+
+/-- …and so for `enrich` as a whole. -/
+theorem c16_enrichE_ok (fuel : Nat) (pc : List α × List α) (ei eo : α → List α) (c : Component α)
+    (h : enrichE fuel pc ei eo = .ok c) : c = enrichF fuel pc ei eo := by
+  unfold enrichE at h
+  simp only at h
+  cases hl : layersLoopE ei fuel
+      ((pc.1.filter (fun v => !(eo v).isEmpty)).map (fun v => (v, (eo v).length))) []
+      (pc.1.filter (fun v => (eo v).isEmpty)) with
+  | error e => simp [hl] at h
+  | ok r =>
+    simp only [hl, Except.ok.injEq] at h
+    have := (c16_layersLoopE_ok ei fuel _ _ _ r hl).1
+    unfold enrichF layersOf
+    simp only
+    rw [this]
+    exact h.symm
+
+/-- **Never returns.** Once the last layer is empty while `remaining` is not, `while remaining:` repeats
+its own state: for EVERY number of further rounds `remaining` is unchanged and one more empty layer
+has been appended per round. (This is the state the real loop reaches on a cyclic job and, before the
+`fix:` commit of C16, on a DAG with two edges into one sink input; the driver reports it as
+`Diverges`, the harness sees the real `precompute` not returning.) -/
+theorem c16_stuck_never_exits (pa : α → List α) (rem : List (α × Nat)) (hrem : rem ≠ []) :
+    ∀ (rounds : Nat) (acc : List (List α)),
+      layersLoop pa rounds rem acc [] = (rem, acc ++ List.replicate (rounds + 1) []) := by
+  intro rounds
+  induction rounds with
+  | zero => intro acc; simp [layersLoop]
+  | succ f ih =>
+    intro acc
+    have he : rem.isEmpty = false := by
+      cases rem with
+      | nil => exact absurd rfl hrem
+      | cons _ _ => rfl
+    simp only [layersLoop, he, Bool.false_eq_true, ↓reduceIte, layerStep_nil]
+    rw [ih]
+    simp [List.replicate_succ]
+
+/-- **Terminates.** On a well-formed DAG the `while remaining` loop of every component exits because
+`remaining` is empty, after at most `len(nodes)` rounds. -/
+theorem c16_layering_terminates (job : Job α β) (hw : job.WF) (hd : IsDag job) :
+    ∀ pc ∈ decompose job.ids (edgeIP job) (edgeOP job),
+      (layersLoop (edgeIP job) pc.1.length
+        ((pc.1.filter (fun v => !(edgeOP job v).isEmpty)).map (fun v => (v, (edgeOP job v).length))) []
+        (pc.1.filter (fun v => (edgeOP job v).isEmpty))).1 = [] :=
+  fun pc hpc => (layer_facts hw hd pc hpc).post.rem_nil
+
+/-- **No `KeyError`, never stuck.** On a well-formed DAG `enrich`, run as the real code runs it
+(`enrichE`: a missing key of `remaining` and a loop that cannot exit are results), returns for every
+component — and returns what the total model function computes. -/
+theorem c16_enrich_returns (job : Job α β) (hw : job.WF) (hd : IsDag job) :
+    ∀ pc ∈ decompose job.ids (edgeIP job) (edgeOP job),
+      enrichE pc.1.length pc (edgeIP job) (edgeOP job) = .ok (enrich pc (edgeIP job) (edgeOP job)) := by
+  intro pc hpc
+  have G := graphOK hw pc hpc
+  have dpost := decomp_post hw
+  obtain ⟨rk, hrk⟩ := rank_rev hw hd
+  have hrk' : ∀ a ∈ pc.1, ∀ c ∈ edgeOP job a, rk c < rk a :=
+    fun a ha c hc => hrk a (dpost.sub_ns pc hpc a ha) c hc
+  have hlast : (pc.1.filter (fun v => !(edgeOP job v).isEmpty)).map (fun v => (v, (edgeOP job v).length)) ≠ [] →
+      pc.1.filter (fun v => (edgeOP job v).isEmpty) ≠ [] := by
+    intro hne hc
+    cases hf : pc.1.filter (fun v => !(edgeOP job v).isEmpty) with
+    | nil => rw [hf] at hne; exact hne rfl
+    | cons a l =>
+      have ha : a ∈ pc.1 := (List.mem_filter.mp (by rw [hf]; simp : a ∈ pc.1.filter _)).1
+      obtain ⟨s, hs, hsn⟩ := exists_sink G rk hrk' a ha
+      have : s ∈ pc.1.filter (fun v => (edgeOP job v).isEmpty) :=
+        List.mem_filter.mpr ⟨hs, by rw [hsn]; rfl⟩
+      rw [hc] at this
+      simp at this
+  have hE := layersLoopE_eq G rk hrk' pc.1.length _ [] _ (loopInv_init G) hlast
+    (by simpa using unvisited_le_length pc.1 _)
+  unfold enrichE enrich enrichF layersOf
+  simp only [hE]
+
+/-- …so the driver reports no error for a well-formed DAG. -/
+theorem c16_no_enrich_errors (job : Job α β) (hw : job.WF) (hd : IsDag job) : enrichErrors job = [] := by
+  unfold enrichErrors plainComponentsX floodFuel
+  rw [(c16_fuel job hw hd (2 * job.edges.length)).1]
+  rw [List.filterMap_eq_nil_iff]
+  intro pc hpc
+  rw [c16_enrich_returns job hw hd pc hpc]
+
+/-- What the driver runs (`precomputeX`: generous flood fuel, so that it follows the real code on
+jobs with dangling edges too) is `precompute` on every well-formed DAG. -/
+theorem c16_driver_runs_model (job : Job α β) (hw : job.WF) (hd : IsDag job) :
+    precomputeX job = precompute job := by
+  unfold precomputeX precompute plainComponentsX floodFuel
+  rw [(c16_fuel job hw hd (2 * job.edges.length)).1]
+
+/-! ## scheduler's view and executor's view of a task's inputs -/
+
+/-- `edge_i[t]` is what the controller waits for before `t` may start; the executor binds the sources
+of `param_source` (one per sink input, the LAST edge wins). **Partial**: they are the same set when no
+sink input is fed by two different sources (`Job.UniqueInputs` — guaranteed by `JobBuilder.build` since
+its `fix:` commit, Props/C19.lean `c19_accepted_presched_wf`). -/
+theorem c16_executor_view_partial (job : Job α β) (hu : job.UniqueInputs) :
+    ∀ t ds, ds ∈ dget (edgeIParams job.edges) t ↔ ds ∈ (precompute job).inputs t := by
+  intro t ds
+  rw [mem_dget_edgeIParams hu]
+  exact (mem_dget_edgeI).symm
+
+/-- …and without that hypothesis they differ, on a well-formed DAG (`jDup` below: task 2 waits for
+(0,0) and (1,0), the executor binds only (1,0)). -/
+theorem c16_executor_view_full_fails :
+    ¬ ∀ (job : Job Nat Nat), job.WF → IsDag job →
+      ∀ t ds, ds ∈ dget (edgeIParams job.edges) t ↔ ds ∈ (precompute job).inputs t := by
+  intro h
+  have := h { tasks := [(0, [0]), (1, [0]), (2, [0])], edges := [⟨0, 0, 2, .ps 0⟩, ⟨1, 0, 2, .ps 0⟩] }
+    ⟨by decide, by decide, by decide⟩ ⟨id, by decide⟩ 2 (0, 0)
+  revert this
+  decide
+
 /-! the hypotheses cannot be dropped -/
 
 /-- a 2-cycle: well-formed but not a DAG; no task is without inputs, `decompose` yields nothing -/
 def jCyc : Job Nat Nat :=
   { tasks := [(0, [0]), (1, [0])], edges := [⟨0, 0, 1, .ps 0⟩, ⟨1, 0, 0, .ps 0⟩] }
-example : jCyc.WF := ⟨by decide, by decide, by decide, by decide⟩
+example : jCyc.WF := ⟨by decide, by decide, by decide⟩
 example : isDagB jCyc = false := by decide
 example : (precompute jCyc).components.length = 0 := by decide
 
-/-- two edges into the same input of task 2: `param_source` keeps the later one only -/
+/-- a 2-cycle behind a source: the component is found, its layering loop is stuck at once -/
+def jCyc2 : Job Nat Nat :=
+  { tasks := [(0, [0]), (1, [0]), (2, [0])], edges := [⟨0, 0, 1, .ps 0⟩, ⟨1, 0, 2, .ps 0⟩, ⟨2, 0, 1, .ps 1⟩] }
+example : jCyc2.WF := ⟨by decide, by decide, by decide⟩
+example : enrichErrors jCyc2 = [.diverges] := by decide
+
+/-- `IsDag` cannot be dropped from `c16_partition`: in `jCyc` both tasks are in no component. -/
+theorem c16_partition_cyclic_full_fails :
+    ¬ ∀ (job : Job Nat Nat), job.WF →
+      ((precompute job).components.flatMap (·.nodes)).Perm job.ids := by
+  intro h
+  have := (h jCyc ⟨by decide, by decide, by decide⟩).length_eq
+  revert this
+  decide
+
+/-- "edge ends are tasks" cannot be dropped either: an edge from something that is not a task makes
+its sink a non-source that no flood reaches (tasks 1 and 2 with an edge 0 → 2: task 2 is in no
+component). A job accepted by `JobBuilder.build` has no such edge (`c19_accepted_wellformed`). -/
+theorem c16_partition_dangling_full_fails :
+    ¬ ∀ (job : Job Nat Nat), job.ids.Nodup → IsDag job →
+      ((precompute job).components.flatMap (·.nodes)).Perm job.ids := by
+  intro h
+  have := (h { tasks := [(1, [0]), (2, [0])], edges := [⟨0, 0, 2, .ps 0⟩] } (by decide) ⟨id, by decide⟩).length_eq
+  revert this
+  decide
+
+/-- two edges into the same input of task 2. Inside the quantifier: `WF` and a DAG; since the fix
+`edge_i` holds both sources (before: only the later one, and `enrich` never returned). -/
 def jDup : Job Nat Nat :=
   { tasks := [(0, [0]), (1, [0]), (2, [0])], edges := [⟨0, 0, 2, .ps 0⟩, ⟨1, 0, 2, .ps 0⟩] }
-example : (precompute jDup).inputs 2 = [(1, 0)] := by decide
+theorem jDup_wf : jDup.WF := ⟨by decide, by decide, by decide⟩
+theorem jDup_dag : IsDag jDup := ⟨id, by decide⟩
+example : ¬ jDup.UniqueInputs := by
+  intro h
+  have := (h ⟨0, 0, 2, .ps 0⟩ (by decide) ⟨1, 0, 2, .ps 0⟩ (by decide) rfl rfl).1
+  revert this
+  decide
+example : (precompute jDup).inputs 2 = [(0, 0), (1, 0)] := by decide
+example : dget (edgeIParams jDup.edges) 2 = [(1, 0)] := by decide
+example : (precompute jDup).components.map (·.nodes) = [[0, 2, 1]] := by decide
+example : enrichErrors jDup = [] := c16_no_enrich_errors jDup jDup_wf jDup_dag
+example : ((precompute jDup).components.flatMap (·.nodes)).Perm jDup.ids := (c16_partition jDup jDup_wf jDup_dag).1
+-- the code before the fix (edge_i taken from param_source): task 0 counts a consumer that never counts it back
+example : (match enrichE 3 ([0, 2, 1], [0, 1]) (dget (edgeIProj (edgeIParams jDup.edges))) (edgeOP jDup) with
+    | .error .diverges => true | _ => false) = true := by decide
+example : layersLoop (edgeIP jCyc2) 1000 [(1, 1), (2, 1), (0, 1)] [] [] = ([(1, 1), (2, 1), (0, 1)], List.replicate 1001 []) :=
+  c16_stuck_never_exits _ _ (by decide) 1000 []
 
 end EkwVerif.Presched
